@@ -18,6 +18,7 @@ def run(ctx):
     runlib.lean_part(ctx, "RootSim.Props.PrefixUnique", THEOREMS_D)
     # glue (E): every reachable state of the abstract global Time Warp machine satisfies Hist (Props/C01Glue.lean)
     runlib.lean_part(ctx, "RootSim.Props.C01Glue", ['RootSim.C01Glue.reachable_invariant','RootSim.C01Glue.reachable_hist','RootSim.C01Glue.tw_prefix_of_sequential','RootSim.C01Glue.tw_equals_sequential','RootSim.C01Glue.tw_quiescent_equals_sequential','RootSim.C01Glue.tw_quiescent_final','RootSim.C01Glue.tw_quiescent_is_sequential','RootSim.C01Glue.step_function_exact'])
+    runlib.lean_part(ctx, "RootSim.Props.C01Term", ["RootSim.C01Term.tw_prefix_states_exact", "RootSim.C01Term.tw_first_true_point_exact", "RootSim.C01Term.tw_committed_predicate_is_sequential", "RootSim.C01Term.tw_quiescent_first_true_exact"])
     agg = runlib.run_matrix(ctx, "par re-execution + final LP states vs Lean sequential executor",
                             40, 1200, oracle_keys=("s_rb_mismatch", "s_below_gvt", "s_double_free", "s_vote_uncommitted"),
                             threads=(1, 2, 3, 4, 6), ckpts=(1, 2, 3, 7, 0))
